@@ -66,6 +66,9 @@ def run(ctx):
         d6 = f_d6.result()
         behs = d4 + ctx.rng.sample(behs, min(len(behs), 25000)) + ctx.rng.sample(d6, min(len(d6), 8000))
         ctx.cov["exhaustive"] = True
+    for b in behs:             # the width-256 base case is observed without ForEachLink (keeps slot prefixes in link names)
+        if b["cfg"]["width"] == 256:
+            b["obs"] = "noeach"
     ctx.log("G: %d of %d enumerated histories + %d simulated" % (len(behs), total, len(sims)))
     behs += sims
     recs = H.record(ctx, binp, "TestVerifC16", behs, name="g16", timeout=6000, parts=1 if q else 6)
